@@ -27,14 +27,17 @@ def greedy_anomaly_selection(
     threshold: float,
 ) -> list[tuple[int, int]]:
     scores = scores.copy()
+    # Intervals without an admissible anomaly interval can never be selected.
+    scores[anomaly_ends <= anomaly_starts] = -np.inf
     anomalies = []
     while np.any(scores > threshold):
         argmax = scores.argmax()
         anomaly_start = anomaly_starts[argmax]
         anomaly_end = anomaly_ends[argmax]
         anomalies.append((anomaly_start, anomaly_end))
-        # remove intervals that overlap with the detected segment anomaly.
-        scores[(anomaly_end > starts) & (anomaly_start < ends)] = 0.0
+        # remove intervals that overlap with the detected segment anomaly. A removed
+        # interval must never be selected again, also not when the threshold is negative.
+        scores[(anomaly_end > starts) & (anomaly_start < ends)] = -np.inf
     anomalies.sort()
     return anomalies
 
